@@ -20,13 +20,17 @@ from __future__ import annotations
 
 import collections
 import json
+import re
 
 from .. import common, distrun, distwork, ser
 from ..gen import comm as G
 
 THEOREMS = ["Pt.Dist.checkWF_sound", "Pt.Dist.wf_clauses", "Pt.Dist.levels_respect_deps",
             "Pt.Dist.levels_complete", "Pt.Dist.number_tags_total", "Pt.Dist.number_tags_injective",
-            "Pt.Dist.number_tags_messages", "Pt.Dist.number_tags_deterministic"]
+            "Pt.Dist.number_tags_messages", "Pt.Dist.number_tags_deterministic",
+            # the partitioner model (PtModel.Partition)
+            "Pt.Dist.partition_wf_partial", "Pt.Dist.partition_check_sound", "Pt.Dist.partition_exec_faithful",
+            "Pt.Dist.partition_comm_once", "Pt.Dist.partition_deterministic", "Pt.Dist.diagnoses_exact"]
 
 _CLAUSE_OF_PY = {
     "recv-name-not-output": "recv-name-is-part-output",
@@ -185,6 +189,8 @@ def run(ctx: common.Ctx):
         qmeta.append(("skeleton", prog, res, replay))
         queries.append(res["partition_query"])
         qmeta.append(("partition", prog, res, replay))
+        queries.append(res["partition_query"].replace(f"(dist partition {distrun.NAME_BASE} ", "(dist checkgood ", 1))
+        qmeta.append(("checkgood", prog, res, replay))
         if res.get("batches") is not None:
             why = batches_respect_graph(replay["spec"], [[tuple(c) for c in b] for b in res["batches"]])
             if why:
@@ -200,7 +206,7 @@ def run(ctx: common.Ctx):
             ctx.sample({"program": prog, "stats": st, "batches": res.get("batches"),
                         "gathered": res.get("gathered")})
     answers = common.driver_query_parallel(queries)
-    n_wf = n_wf_dis = n_b = n_b_dis = n_nt = n_nt_dis = n_sk = n_sk_dis = n_pm = n_pm_dis = 0
+    n_wf = n_wf_dis = n_b = n_b_dis = n_nt = n_nt_dis = n_sk = n_sk_dis = n_pm = n_pm_dis = n_cg = n_cg_dis = n_cg_good = 0
     for (kind, prog, res, replay), a in zip(qmeta, answers):
         if kind == "wf":
             n_wf += 1
@@ -247,6 +253,21 @@ def run(ctx: common.Ctx):
                 ctx.violation(f"model-partition-differs:{diff[1]}{known}",
                               f"the partition computed by the Lean model of find_distributed_partition differs from "
                               f"the real one for {prog}: {diff[0][:300]}", dict(replay, difference=diff[0]))
+        elif kind == "checkgood":
+            # the hypothesis of partition_wf_partial: must hold exactly for the programs without the
+            # two recorded patterns (closedness / Valid always)
+            n_cg += 1
+            m = re.match(r"ok (\S+) \((.*)\)$", a)
+            flags = re.findall(r"\((\d+) (\d) (\d) (\d)\)", m.group(2)) if m else []
+            good = bool(m) and m.group(1) == "ok" and all(f[1:] == ("1", "1", "1") for f in flags)
+            n_cg_good += good
+            pv = all(f[2] == "1" for f in flags)
+            nf = all(f[3] == "1" for f in flags)
+            closed_valid = bool(m) and m.group(1) == "ok" and all(f[1] == "1" for f in flags)
+            pat = res["patterns"]
+            if not closed_valid or pv == pat["payload_through_send_holder"] or nf == pat["send_of_unmodified_recv"]:
+                n_cg_dis += 1
+                ctx.broken.append(f"correspondence:GoodProgram-hypothesis-vs-program-patterns:{a[:80]}:{prog}")
         elif kind == "batches":
             n_b += 1
             try:
@@ -284,8 +305,30 @@ def run(ctx: common.Ctx):
                                 "verify_accepts": [n_ver, n_ver_dis], "parts_vs_batches": [n_parts, n_parts_dis],
                                 "batches_vs_model": [n_b, n_b_dis],
                                 "model_partition_skeleton_vs_real": [n_sk, n_sk_dis],
-                                "model_partition_full_vs_real": [n_pm, n_pm_dis], "tags_across_ranks": [n_tag, n_tag_dis],
+                                "model_partition_full_vs_real": [n_pm, n_pm_dis],
+                                "GoodProgram_hypothesis_checked": [n_cg, n_cg_dis],
+                                "programs_satisfying_GoodProgram": n_cg_good, "tags_across_ranks": [n_tag, n_tag_dis],
                                 "tag_table_vs_numberTags": [n_nt, n_nt_dis]})
+    # the model's own partitions through the verified checker (evidence for the full statement
+    # `PartitionWFStatement`, which is not proved): every model partition of a program that satisfies
+    # GoodProgram must pass checkWF
+    good_progs = set()
+    for (kind, prog, res, replay), a in zip(qmeta, answers):
+        if kind == "checkgood":
+            m = re.match(r"ok (\S+) \((.*)\)$", a)
+            flags = re.findall(r"\((\d+) (\d) (\d) (\d)\)", m.group(2)) if m else []
+            if m and m.group(1) == "ok" and all(f[1:] == ("1", "1", "1") for f in flags):
+                good_progs.add(json.dumps(prog))
+    q2 = [(prog, a) for (kind, prog, res, replay), a in zip(qmeta, answers)
+          if kind == "partition" and a.startswith("ok (") and json.dumps(prog) in good_progs]
+    ans2 = common.driver_query_parallel([f"(dist checkwf {a[3:]})" for _, a in q2])
+    n_mwf_dis = 0
+    for (prog, _), a2 in zip(q2, ans2):
+        if a2 != "ok true":
+            n_mwf_dis += 1
+            ctx.broken.append(f"model:partitionOf-fails-checkWF:{a2[:80]}:{prog}")
+    ctx.batches["real-partitions-vs-contract-and-model"]["comparisons"]["model_partition_passes_checkWF"] = \
+        [len(q2), n_mwf_dis]
     ctx.coverage["programs"] = len(tasks)
     ctx.coverage["program_distribution"] = dict(sorted(dist.items()))
     ctx.coverage["rule"] = ("a case = one generated multi-rank program (seed, index, profile), partitioned by the real "
